@@ -1,6 +1,7 @@
 package main
 
 import (
+	"regexp"
 	"fmt"
 	"sort"
 	"strings"
@@ -22,7 +23,7 @@ var mustPanicCalls = map[string]bool{
 	"MustAccAddressFromBech32": true, "MustUnmarshal": true, "MustMarshal": true, "MustUnmarshalJSON": true, "MustMarshalJSON": true,
 	"MustBech32ifyAddressBytes": true, "MustNewDecFromStr": true, "LegacyMustNewDecFromStr": true, "MustUnpackAny": true,
 	"MustGetDelegatorAddr": true, "MustHexDecode": true, "MustData": true, "MustMemo": true, "MustABIJson": true, "MustLengthPrefix": true,
-	"NewCoin": true, "NewInt64Coin": true, "Uint64": true, "Int64": true, "QuoUint64": true, "Quo": false, "QuoInt64": true,
+	"NewCoin": true, "NewInt64Coin": true, "Uint64": true, "Int64": true, "QuoUint64": true, "Quo": true, "QuoInt64": true, "QuoTruncate": true, "QuoRoundUp": true,
 }
 
 func (e *Engine) blockClosure() map[*ssa.Function]bool {
@@ -30,7 +31,7 @@ func (e *Engine) blockClosure() map[*ssa.Function]bool {
 }
 
 func runC07(e *Engine, r *Report, tier string) {
-	r.Explanation = "C07, necessary conditions only (state reachability is not decided; the ledger is per site, not per state). Closure: every fx-core function reachable through the module-scoped call graph (static calls, closures, interface calls resolved to fx-core implementers) from Begin/End/PreBlock entry points. R1 ledger of halt-capable sites in that closure — explicit panic(), calls to Must*/NewCoin/Uint64-style panicking helpers, single-value type assertions — each must be discharged by: D1 codec round trip (MustUnmarshal of a value read from a key family whose every writer marshals the same Go type), D2 address provenance (argument of a Must* bech32 parser is rooted only in address-typed sources: a proto field whose name ends in Address/`Sender`/`Receiver`, or AccAddress.String(); the generated String() of a whole proto message is a definite violation), D3 a dominating guard / error check that makes the bad case unreachable (panic in an `err != nil` branch of a call whose failure is excluded is NOT accepted: it stays a ledger entry), D4 a reviewed single-symbol exemption with its reason (table in the checker). R2 the slashing loops are siblings: each hands the iterated oracle's OracleAddress to the slash primitive, skips oracles that joined later, tests the confirmation map by external address and advances its cursor after the loop. R3 error returns of the gov EndBlocker come only from SDK-collection calls or checked fx-core calls (listed). Not decided: that every reachable state completes."
+	r.Explanation = "C07, necessary conditions only (state reachability is not decided; the ledger is per site, not per state). Closure: every fx-core function reachable through the module-scoped call graph (static calls, closures, interface calls resolved to fx-core implementers) from Begin/End/PreBlock entry points. R1 ledger of halt-capable sites in that closure — explicit panic(), calls to Must*/NewCoin/Uint64-style panicking helpers, divisions (Quo* of math.Int/LegacyDec, whose divisor must be a non-zero constant, a package-level value, or excluded from zero by a dominating guard on that very expression), single-value type assertions — each must be discharged by: D1 codec round trip (MustUnmarshal of a value read from a key family whose every writer marshals the same Go type), D2 address provenance (argument of a Must* bech32 parser is rooted only in address-typed sources: a proto field whose name ends in Address/`Sender`/`Receiver`, or AccAddress.String(); the generated String() of a whole proto message is a definite violation), D3 a dominating guard / error check that makes the bad case unreachable (panic in an `err != nil` branch of a call whose failure is excluded is NOT accepted: it stays a ledger entry), D4 a reviewed single-symbol exemption with its reason (table in the checker). R2 the slashing loops are siblings: each hands the iterated oracle's OracleAddress to the slash primitive, skips oracles that joined later, tests the confirmation map by external address and advances its cursor after the loop. R3 error returns of the gov EndBlocker come only from SDK-collection calls or checked fx-core calls (listed). Not decided: that every reachable state completes."
 	r.Rule("R1", "halt-capable sites in the block-processing closure are discharged (D1-D4)", 10, "sites found in the closure")
 	r.Rule("R2", "slashing loops agree (argument, start-height skip, confirm-map test, cursor)", 3, "callers of the slash primitive")
 	r.Rule("R3", "gov EndBlocker error returns classified", 1, "")
@@ -49,6 +50,9 @@ func runC07(e *Engine, r *Report, tier string) {
 	d4 := map[string]string{
 		"(x/crosschain/keeper.Keeper).isNeedOracleSetRequest|panic after LegacyNewDecFromStr()": "LegacyNewDecFromStr(Sprintf(\"%.8f\", finite float)) cannot fail: PowerDiff returns a finite value in [0,2]",
 		"(x/crosschain/keeper.Keeper).SlashOracle|panic if !found GetOracle()":                  "oracle record absent for an address taken from the oracle list read earlier in the same end-block pass",
+		"(x/gov/keeper.Keeper).Tally|Quo(next(range(alloc:currValidators))#2.DelegatorShares)":                              "verbatim cosmos-sdk x/gov tally: a bonded validator has positive DelegatorShares (x/staking removes a validator whose shares reach zero)",
+		"(x/gov/keeper.Keeper).Tally$2$1|Quo(*F:currValidators[GetValidatorAddr(P:delegation)]#0.DelegatorShares)":         "verbatim cosmos-sdk x/gov tally: same staking invariant as above, the validator was found among the bonded ones",
+		"(x/gov/keeper.Keeper).Tally|Quo(alloc:totalVotingPower)":                                                           "veto ratio: reached only after `totalVotingPower.Sub(abstain) != 0` (checked by the next ledger entry's guard); abstain is one of the non-negative summands of totalVotingPower, so the total is non-zero",
 	}
 
 	nsite := 0
@@ -125,8 +129,18 @@ func runC07(e *Engine, r *Report, tier string) {
 							return
 						}
 					}
+					if n == "Quo" || n == "QuoTruncate" || n == "QuoRoundUp" {
+						if !strings.Contains(recv, "cosmossdk.io/math.") {
+							return
+						}
+					}
 					nsite++
 					ck := key + "|" + n
+					if n == "Quo" || n == "QuoTruncate" || n == "QuoRoundUp" {
+						if a := callArgs(x); len(a) == 2 {
+							ck += "(" + regNames.ReplaceAllString(vkey(a[1], 0), "") + ")"
+						}
+					}
 					if why, ok := d4[ck]; ok {
 						r.Ok("R1", ck, e.InstrPos(i), "D4 exemption: "+why)
 						return
@@ -354,6 +368,68 @@ func (e *Engine) arithDischarge(c ssa.CallInstruction) (bool, string) {
 			return false, "division is not confined to an iteration over the accumulated list"
 		}
 		return true, "D3: divisor = Σ addends each guarded > 0, accumulated with the list elements; division only while iterating that list"
+	case "Quo", "QuoTruncate", "QuoRoundUp":
+		if len(args) != 2 {
+			return false, "unexpected arity"
+		}
+		d := stripConv(args[1])
+		// a value built from a non-zero constant, or a package-level value
+		unwrap := func(v ssa.Value) ssa.Value {
+			for i := 0; i < 4; i++ {
+				cc0, ok := stripConv(v).(*ssa.Call)
+				if !ok {
+					break
+				}
+				switch callName(cc0) {
+				case "LegacyNewDecFromInt", "NewDecFromInt", "ToLegacyDec", "LegacyNewDecFromBigInt", "NewIntFromBigInt", "ToDec":
+					a := callArgs(cc0)
+					v = a[len(a)-1]
+					continue
+				}
+				break
+			}
+			return stripConv(v)
+		}
+		core := unwrap(d)
+		if cc0, ok := core.(*ssa.Call); ok {
+			switch callName(cc0) {
+			case "NewInt", "NewIntFromUint64", "LegacyNewDec", "NewUint", "LegacyNewDecWithPrec", "NewIntWithDecimal":
+				if z, ok := constInt(cc0.Common().Args[0]); ok && z != 0 {
+					return true, "D3: divisor built from a non-zero constant"
+				}
+			}
+		}
+		if u, ok := core.(*ssa.UnOp); ok {
+			if _, isG := u.X.(*ssa.Global); isG {
+				return true, "D3: divisor is a package-level value (power reduction / precision constant)"
+			}
+		}
+		dk, ck := vkey(d, 0), vkey(core, 0)
+		for _, g := range GuardsOf(c) {
+			ci, ok := NormCond(g)
+			if !ok {
+				continue
+			}
+			var subj ssa.Value
+			nz := false
+			switch {
+			case ci.Op == "!call:IsZero" || ci.Op == "call:IsPositive":
+				if a := callArgs(ci.Call); len(a) >= 1 {
+					subj, nz = a[0], true
+				}
+			case ci.Op == "!=" && ci.Call != nil && ci.Y != nil && isZeroValue(ci.Y):
+				subj, nz = ci.X, true
+			case ci.Op == ">" && ci.Call != nil && ci.Y != nil && isZeroValue(ci.Y):
+				subj, nz = ci.X, true
+			}
+			if nz && subj != nil {
+				sk := vkey(subj, 0)
+				if sk == dk || sk == ck {
+					return true, "D3: a dominating guard excludes a zero divisor (" + ci.Op + " on " + regNames.ReplaceAllString(sk, "") + ")"
+				}
+			}
+		}
+		return false, "the divisor " + regNames.ReplaceAllString(dk, "") + " is not excluded from being zero by a dominating guard on that very value: division by zero panics and halts block processing"
 	case "Uint64", "Int64":
 		recv := args[0]
 		// constant / bounded sources
@@ -376,6 +452,22 @@ func (e *Engine) arithDischarge(c ssa.CallInstruction) (bool, string) {
 		return false, "coin construction with an amount of unknown sign"
 	}
 	return false, "not classified"
+}
+
+var regNames = regexp.MustCompile(`@t[0-9]+`)
+
+// isZeroValue: a zero of math.Int / LegacyDec / Uint
+func isZeroValue(v ssa.Value) bool {
+	if isZeroInt(v) {
+		return true
+	}
+	if c, ok := stripConv(v).(*ssa.Call); ok {
+		switch callName(c) {
+		case "LegacyZeroDec", "ZeroDec", "ZeroInt", "ZeroUint":
+			return true
+		}
+	}
+	return false
 }
 
 func isZeroInt(v ssa.Value) bool {
